@@ -287,6 +287,19 @@ type storeGenState struct {
 
 func storeRandVal(r *hx.Rng) string {
 	ints := []string{"0", "1", "-1", "7", "42", "-300", "123456789012345678901234567890"}
+	if r.Chance(6) {
+		// values too large to be inlined into the storage map's slab (they live in slabs of their own,
+		// which a later transaction has not loaded yet)
+		if r.Bool() {
+			n := 300 + r.Intn(300)
+			xs := make([]string, n)
+			for i := range xs {
+				xs[i] = strconv.Itoa(i % 97)
+			}
+			return "A" + strings.Join(xs, ".")
+		}
+		return "S" + strings.Repeat("abcdefghij", 120+r.Intn(100))
+	}
 	switch r.Intn(9) {
 	case 0:
 		return "I" + r.Pick(ints)
@@ -422,6 +435,22 @@ func genStore(c *hx.Ctx) {
 			txs = append(txs, "bw,1,2,"+t, "ps,1;ld,1,2,"+t+";ps,1", "ty,1,2;fe,1")
 			emit(strings.Join(txs, "|"))
 		}
+	}
+	// directed: large values and many paths, enumerated by a LATER transaction (fresh slab cache)
+	{
+		big := make([]string, 400)
+		for i := range big {
+			big[i] = strconv.Itoa(i)
+		}
+		bigArr := "A" + strings.Join(big, ".")
+		longStr := "S" + strings.Repeat("x", 3000)
+		emit("sv,0,0," + bigArr + ",ArrInt;sv,0,1,I7,Int|ps,0;fe,0|ty,0,0;ck,0,0,ArrInt;ps,0|ld,0,0,ArrInt;ps,0|ps,0;fe,0")
+		emit("sv,1,3," + longStr + ",String;sv,1,4,B1,Bool;sv,1,5," + bigArr + ",ArrAny|ps,1|fe,1;ps,1|cp,1,3,String;ps,1")
+		var many []string
+		for i := 0; i < 300; i++ {
+			many = append(many, "sv,2,"+strconv.Itoa(i)+",I"+strconv.Itoa(i)+",Int")
+		}
+		emit(strings.Join(many[:150], ";") + "|" + strings.Join(many[150:], ";") + "|ps,2|ld,2,17,Int;ps,2|ps,2") // (no forEachStored here: 300 callbacks exceed the computation limit)
 	}
 	for i := 0; i < c.N; i++ {
 		g := &storeGenState{r: r, occ: map[[2]int]byte{}, np: 6}
